@@ -118,9 +118,9 @@ def call_matrix(wd, tier, seed):
     return jobs, len(blocks), st, tr
 
 
-def check_calls(prop, tier, seed):
+def check_calls(prop, tier, seed, collect=False):
     t0 = time.time()
-    wd = workdir(f"{prop}_{tier}")
+    wd = workdir(f"{prop}_{tier}" + ("_calls" if collect else ""))
     build_harness()
     jobs, nfn, gst, gtr = call_matrix(wd, tier, seed)
     total = len(jobs)
@@ -155,6 +155,8 @@ def check_calls(prop, tier, seed):
 
     nontriv = {"C03": cnt.get("k1_checked", 0) + cnt.get("k2_checked", 0), "C04": cnt.get("calls", 0) - cnt.get("rejected", 0),
                "C05": cnt.get("calls", 0) - cnt.get("rejected", 0)}[prop]
+    if collect:
+        return agg, cnt, replay_writer
     coverage = {
         "evaluations": cnt.get("calls", 0), "distinct_nontrivial": nontriv,
         "rule": "call tuples generated by TLC (GenCalls.tla) from the signature table exported from the real stdlib: per function the base call "
@@ -224,10 +226,10 @@ def mutate(src, tokens, rnd):
     return "".join(ts)
 
 
-def check_diag(prop, tier, seed):
+def check_diag(prop, tier, seed, collect=False):
     """C33 (diagnostics well-formed and renderable) and the source-text part of C04."""
     t0 = time.time()
-    wd = workdir(f"{prop}_{tier}")
+    wd = workdir(f"{prop}_{tier}" + ("_diag" if collect else ""))
     build_harness()
     u, gst, gtr = universes("GenTokens.tla", wd, ["TOKENS"])
     tokens = u["TOKENS"]
@@ -271,6 +273,8 @@ def check_diag(prop, tier, seed):
             line = f.readlines()[v["line"] - 1]
         return {"engine": "C/diag", "record": json.loads(line)}
 
+    if collect:
+        return agg, cnt, replay_writer
     coverage = {
         "evaluations": cnt.get("sources", 0), "distinct_nontrivial": cnt.get("with_diagnostics", 0),
         "rule": "source texts: every sequence of <= 2 tokens of the GenTokens.tla alphabet (one representative per lexer token class plus "
@@ -286,4 +290,48 @@ def check_diag(prop, tier, seed):
     assumptions = ["char-boundary tests use str::is_char_boundary on the real source; rendering uses Formatter (plain and coloured)",
                    "sources longer than 6000 bytes are not generated; stack/memory exhaustion is out of scope"]
     mine = [v for v in agg["viols"] if v["prop"] == prop]
+    return verdict(prop, tier, seed, "exploration", coverage, mine, assumptions, t0, replay_writer)
+
+
+def check_panics(prop, tier, seed):
+    """C04: nothing panics - arbitrary source texts (compile, render diagnostics, run), every stdlib call tuple of the
+    matrix, and the TLC-generated programs of the language core on every event."""
+    t0 = time.time()
+    a1, c1, rw1 = check_diag(prop, tier, seed, collect=True)
+    a2, c2, rw2 = check_calls(prop, tier, seed, collect=True)
+    import engine_a
+    wd = workdir(f"{prop}_{tier}_core")
+    viols3, runs3, st3 = [], 0, 0
+    for focus in ("C09", "C13", "C08", "C15"):
+        cases, events, gst, gtr = engine_a.generate(focus, "quick", wd)
+        shards = max(1, min(NCPU, len(cases) // 8))
+        traces = engine_a.replay(cases, events, wd, shards)
+        agg = engine_a.aggregate(engine_a.validate(traces, wd))
+        viols3 += [v for v in agg["viols"] if v["prop"] == prop]
+        runs3 += agg["cnt"].get("runs", 0)
+        st3 += agg["states"]
+    mine = [dict(v, _src="diag") for v in a1["viols"] if v["prop"] == prop] + [dict(v, _src="calls") for v in a2["viols"] if v["prop"] == prop] \
+        + [dict(v, _src="core") for v in viols3]
+
+    def replay_writer(v):
+        if v.get("_src") == "diag":
+            return rw1(v)
+        if v.get("_src") == "calls":
+            return rw2(v)
+        return {"engine": "A", "first": {k: v[k] for k in v if not k.startswith("_")}}
+
+    coverage = {
+        "evaluations": c1.get("sources", 0) + c2.get("calls", 0) + runs3,
+        "distinct_nontrivial": c1.get("sources", 0) + (c2.get("calls", 0) - c2.get("rejected", 0)) + runs3,
+        "rule": "three input spaces, all executed in ways that turn a panic into data (catch_unwind inside killable worker processes): (1) source "
+                "texts as in C33 - compiled, every diagnostic rendered plain and coloured, accepted programs run; (2) the full stdlib call matrix "
+                "as in C03; (3) the TLC-generated programs of the C08/C09/C13/C15 grammars on every event with hooks on. every executed case "
+                "counts (a rejected call tuple does not)",
+        "samples": [{"source_texts": c1.get("sources", 0)}, {"stdlib_calls": c2.get("calls", 0), "outcomes": {k: c2.get(k, 0) for k in ("ok", "err", "rejected", "panic", "timeout", "died")}},
+                    {"core_program_runs": runs3}],
+        "states": a1["states"] + a2["states"] + st3, "transitions": a1["transitions"] + a2["transitions"] + st3,
+        "traces_validated_against_impl": c1.get("sources", 0) + c2.get("calls", 0) + runs3,
+    }
+    assumptions = ["memory / stack exhaustion is out of scope (workers run under a 6 GB limit; sources < 6000 bytes; repetition counts are bounded)",
+                   "the harness is built in release mode: debug-only overflow checks (e.g. negating i64::MIN) do not panic there"]
     return verdict(prop, tier, seed, "exploration", coverage, mine, assumptions, t0, replay_writer)
